@@ -300,3 +300,39 @@ func CliRan() bool { return strings.Contains(cliOutput(), "zzhello") }
 
 // CliTypechecked: 1 yes, 0 no, -1 not observable (native).
 func CliTypechecked() int { return -1 }
+
+// OpaqueStr stands for an arbitrary identifier (a fresh string variable under gse).
+func OpaqueStr(i int) string { return "x" + strconv.Itoa(i) }
+
+// Tokens renders s as its Grits token sequence joined by single spaces (whitespace-insensitive
+// comparison of printed terms).
+func Tokens(s string) string {
+	isWord := func(c byte) bool {
+		return (c >= 'a' && c <= 'z') || (c >= 'A' && c <= 'Z') || (c >= '0' && c <= '9') || c == '_' || c == '\''
+	}
+	isSpace := func(c byte) bool { return c == ' ' || c == '\t' || c == '\n' || c == '\r' || c == '\v' }
+	two := map[string]bool{"-*": true, "-o": true, "/\\": true, "\\/": true, "=>": true, "<-": true}
+	var toks []string
+	for i := 0; i < len(s); {
+		switch {
+		case isSpace(s[i]):
+			i++
+		case isWord(s[i]):
+			j := i
+			for j < len(s) && isWord(s[j]) {
+				j++
+			}
+			toks = append(toks, s[i:j])
+			i = j
+		default:
+			if i+1 < len(s) && two[s[i:i+2]] {
+				toks = append(toks, s[i:i+2])
+				i += 2
+			} else {
+				toks = append(toks, s[i:i+1])
+				i++
+			}
+		}
+	}
+	return strings.Join(toks, " ")
+}
